@@ -42,6 +42,9 @@ reasons = {
     "reserve-ignores-vrf": "registry Reserve*/override API carries no VRF; needs an API change across ipoe/pppoe/ha callers",
     "restore-keeps-conflicting-address": "cannot fire on HEAD without another defect first; dropping the address would let a stale image win over the legitimate holder",
     "coa-without-event-timestamp-bypasses-window": "requiring Event-Timestamp breaks DACs that omit it (plain radclient); a compatibility decision for the maintainers (patch kept in fixes/C08_require_event_timestamp.patch)",
+    "bulk-sync-lagging-standby-not-converging": "needs a 'replace all' meaning for snapshot pages (replication proto change) and a client that does not exist yet (BulkSync / ClearSyncedNamespace have no caller in /repo)",
+    "stale-heartbeat-built-before-peer-loss": "telling a heartbeat built before the receiver's peer-loss detection from a fresh one needs a common clock or an epoch handshake in the heartbeat proto; not a small change",
+    "pools-overlap-within-vrf-accepted": "a configuration-validation decision (reject overlapping subscriber pools of one family per VRF at commit); touches config validation for every pool source and may reject configurations operators run today",
     "start-stop-interim-sent-from-unordered-goroutines": "needs a per-session ordered send queue covering Start, every Interim and the Stop; not a small change",
 }
 for k in known:
